@@ -384,6 +384,8 @@ def check_san_writer(ctx, f, L):
                 okm = len(cps) == 1 and cps[0].ret == sym.TRUE
             ctx.check(okm, "san-write:mate-from-no-moves", "the mate flag is not derived from generate_moves(|_| true) on the successor", where)
     ctx.floor("display_san_move paths", n, 8)
+    check_capture_mark(ctx, f, L, ps, where)
+    ctx.rule("san-writer")
     # castle squares: every use of a right's file other than the presence test is the comparison
     # `mv.to == (right's file, mover's back rank)`; both wings must occur
     wings = set()
@@ -459,6 +461,168 @@ def check_san_writer(ctx, f, L):
     in_order = all(any(is_subsequence(tokens(o), tokens(fl_[:-1] + sfx)) for fl_ in fulls for sfx in ("#", "+")) or o.startswith("O-O") for o in orders)
     ctx.check(ok_full and in_order, "san-write:text-order", "SAN text is not assembled as piece, file, rank, x, destination, =promotion, #|+ (or O-O / O-O-O + suffix)", loc(fb),
               sample={"orders": len(orders), "longest": max(orders, key=len) if orders else None})
+
+
+def check_capture_mark(ctx, f, L, ps, where):
+    """the capture mark of a non-castling move: set exactly when the move captures -- an enemy piece stands on the
+    destination, or a pawn moves onto the en-passant square.  Two spellings are decided: (A) the count of occupied (or
+    enemy) squares drops from the board to its successor by `play` (the successor is C02's, re-run through C01: the
+    count drops on captures and en passant only); (B) a Boolean function of the atoms E `enemy on to`, K `kind of the
+    moved piece`, S `an en-passant file is set`, T `to == (that file, relative sixth rank)`, F `origin and destination
+    files differ`, which must equal E | (K == Pawn & S & T) on every assignment a legal non-castling move on an
+    accepted board allows (the en-passant square is empty; a pawn changes file exactly when it captures; the destination
+    holds no own piece)."""
+    ctx.rule("san-writer.capture-mark")
+    MV = ("param", "mv")
+    TO, FROM = ("field", MV, "to"), ("field", MV, "from")
+    ENEMY = ("get", "colors", BOARD, ("cnot", STM))
+    _W, _B = ("enum", movegen.COLOR, "White"), ("enum", movegen.COLOR, "Black")
+    OCC = lambda b_: {(o_, ("get", "colors", b_, x_), ("get", "colors", b_, y_)) for o_ in ("or", "xor") for x_, y_ in ((_W, _B), (_B, _W))} | {("get", "occupied", b_)}
+    EP = ("get", "en_passant", BOARD)
+    EPSQ = ("sq", ("field", ("downcast", EP, "Some"), "0"), ("relrank", 5, STM))
+    MOVED = {("call", "core::option::Option<T>::unwrap", (("piece_on", BOARD, FROM),)),
+             ("field", ("downcast", ("piece_on", BOARD, FROM), "Some"), "0")}
+    kinds = [v["name"] for v in f.adts[PIECE]["variants"]]
+
+    def post_of(e):
+        found = []
+        sym.contains(e, lambda y: found.append(y) or False if (y[0] == "post" and str(y[1]).endswith("::play")) else False)
+        return found[0] if found else None
+
+    def form_a(cap):
+        if not (cap[0] == "bin" and cap[1] in ("Gt", "Lt", "Ne") and cap[2][0] == "len" and cap[3][0] == "len"):
+            return False
+        before, after = (cap[2][1], cap[3][1]) if cap[1] != "Lt" else (cap[3][1], cap[2][1])
+        po = post_of(after) or post_of(before)
+        if po is None:
+            return False
+        if post_of(before) is not None:
+            if cap[1] != "Ne":
+                return False
+            before, after = after, before
+        if before in OCC(BOARD) and after in OCC(po):
+            return True
+        # enemy pieces: the mover's opponent, named from either board (the successor's side to move is the opponent)
+        enemy_after = {("get", "colors", po, ("cnot", STM)), ("get", "colors", po, ("get", "side_to_move", po))}
+        return before == ENEMY and after in enemy_after
+
+    def atom(e):
+        """-> (name, positive?) or ('kind', X, positive?) or None"""
+        if e[0] == "un" and e[1] == "Not":
+            a = atom(e[2])
+            return None if a is None else a[:-1] + (not a[-1],)
+        if e[0] == "has" and e[2] == TO:
+            if e[1] == ENEMY or e[1] in OCC(BOARD):
+                return ("E", True)            # no own piece on the destination of a legal non-castling move
+        if e[0] == "discr" and e[1] == ("piece_on", BOARD, TO) or e[0] == "discr" and e[1] == ("color_on", BOARD, TO):
+            return ("E", True)
+        if e == ("discr", EP):
+            return ("S", True)
+        if e[0] == "bin" and e[1] in ("Eq", "Ne"):
+            s_ = {e[2], e[3]}
+            pos = e[1] == "Eq"
+            if s_ == {EPSQ, TO}:
+                return ("T", pos)
+            if s_ == {("file", FROM), ("file", TO)}:
+                return ("F", not pos)
+            for m_ in MOVED:
+                if m_ in s_:
+                    o = (s_ - {m_}).pop() if len(s_) == 2 else None
+                    if o is not None and o[0] == "enum" and o[1] == PIECE:
+                        return ("kind", o[2], pos)
+        if e[0] == "has" and e[2] == FROM and e[1][0] == "get" and e[1][1] == "pieces" and e[1][2] == BOARD and e[1][3][0] == "enum":
+            return ("kind", e[1][3][2], True)
+        return None
+
+    def holds(a, sg):
+        if a[0] == "kind":
+            return (sg["K"] == a[1]) == a[2]
+        return sg[a[0]] == a[1]
+
+    def ev(e, sg):
+        """value of a Boolean expression under the assignment, None if it is not a function of the atoms"""
+        if e == sym.TRUE:
+            return True
+        if e == sym.FALSE:
+            return False
+        a = atom(e)
+        if a is not None:
+            return holds(a, sg)
+        if e[0] == "un" and e[1] == "Not":
+            x = ev(e[2], sg)
+            return None if x is None else not x
+        if e[0] == "bin" and e[1] in ("BitAnd", "BitOr", "BitXor", "Eq", "Ne"):
+            x, y = ev(e[2], sg), ev(e[3], sg)
+            if x is None or y is None:
+                return None
+            return {"BitAnd": x and y, "BitOr": x or y, "BitXor": x != y, "Ne": x != y, "Eq": x == y}[e[1]]
+        return None
+
+    # assignments a legal non-castling move on an accepted board allows
+    care = []
+    for K in kinds:
+        for E in (False, True):
+            for S in (False, True):
+                for T in ((False, True) if S else (False,)):
+                    for F in (False, True):
+                        if E and S and T:
+                            continue                     # the en-passant square is empty
+                        if K == "Pawn" and F != (E or (S and T)):
+                            continue                     # a pawn changes file exactly when it captures
+                        care.append({"K": K, "E": E, "S": S, "T": T, "F": F})
+    n = na = 0
+    bad = {}
+    for p in ps:
+        if p.end != "return" or p.ret[0] != "agg":
+            continue
+        fields = dict(p.ret[4])
+        if "captures" not in fields:
+            continue
+        conds = [(L.lift(c[0]), c[1]) for c in p.conds]
+
+        def decided_false(x):
+            x = L.lift(x)
+            return x == sym.FALSE or any(e_ == x and v_ == 0 for e_, v_ in conds)
+        if not (decided_false(fields.get("short_castles", sym.TRUE)) and decided_false(fields.get("long_castles", sym.TRUE))):
+            continue                                     # a castling result: the text is O-O / O-O-O
+        n += 1
+        cap = L.lift(fields["captures"])
+        if form_a(cap):
+            na += 1
+            continue
+        lits = []
+        for e_, v_ in conds:
+            a = atom(e_)
+            if a is None and e_[0] == "discr" and e_[1] in MOVED:
+                # a switch on the moved piece's kind
+                if isinstance(v_, int):
+                    a = ("kind", kinds[v_], True) if 0 <= v_ < len(kinds) else None
+                else:
+                    lits.append(("kindnotin", [kinds[i] for i in v_[1] if 0 <= i < len(kinds)]))
+                    continue
+            elif a is not None and not isinstance(v_, int):
+                continue
+            elif a is not None and not v_:
+                a = a[:-1] + (not a[-1],)
+            if a is not None:
+                lits.append(a)
+        for sg in care:
+            if not all((sg["K"] not in l_[1]) if l_[0] == "kindnotin" else holds(l_, sg) for l_ in lits):
+                continue
+            got = ev(cap, sg)
+            want = sg["E"] or (sg["K"] == "Pawn" and sg["S"] and sg["T"])
+            if got is None:
+                bad.setdefault("undecided", sym.show(cap)[:160])
+            elif got != want:
+                bad.setdefault("wrong", "%s piece, enemy on destination: %s, destination is the en-passant square: %s -> capture mark %s"
+                               % (sg["K"], sg["E"], sg["S"] and sg["T"], got))
+    ctx.floor("non-castling SAN results", n, 1)
+    ctx.check("undecided" not in bad, "san-write:capture-mark:decided",
+              "the capture mark is neither the drop of the piece count from the board to its successor nor a function of "
+              "`enemy on destination`, `moved piece is a pawn`, `destination is the en-passant square`: %s" % bad.get("undecided"), where)
+    ctx.check("wrong" not in bad, "san-write:capture-mark:iff-captures",
+              "the capture mark is not set exactly when the move captures (enemy piece on the destination, or a pawn moving onto the en-passant square): %s" % bad.get("wrong"), where,
+              sample={"capture mark": "piece count drops from board to successor" if na else "E | (pawn & to == ep square)", "results": n})
 
 
 def is_subsequence(a, b):
